@@ -26,7 +26,7 @@ ALWAYS_KINDS = {"overlap", "no_progress", "query_panicked", "executor_still_runn
 
 
 def bes_part(bd, wd, seed, quick):
-    p = vp.run([os.path.join(bd, "bes_replay"), "--mode", "probe"], timeout=60)
+    p = vp.run_subject([os.path.join(bd, "bes_replay"), "--mode", "probe"], timeout=60)
     variant = p.stdout.strip().splitlines()[-1]
     if variant == "unknown":
         raise vp.ToolError("bes_replay probe: the upgrade point was not reached")
@@ -49,9 +49,9 @@ def bes_part(bd, wd, seed, quick):
             f.write(json.dumps(s) + "\n")
     results = []
     tr = os.path.join(wd, "bes_sched_trace.ndjson")
-    vp.run([os.path.join(bd, "bes_replay"), "--mode", "schedules", "--in", sin, "--out", tr], timeout=1200)
+    vp.run_subject([os.path.join(bd, "bes_replay"), "--mode", "schedules", "--in", sin, "--out", tr], timeout=1200)
     ts = os.path.join(wd, "bes_stress.ndjson")
-    vp.run([os.path.join(bd, "bes_replay"), "--mode", "stress", "--rounds", "200" if quick else "3000",
+    vp.run_subject([os.path.join(bd, "bes_replay"), "--mode", "stress", "--rounds", "200" if quick else "3000",
             "--seed", str(seed), "--out", ts], timeout=1200)
     info = {"code_variant": variant, "model_holds": mc["ok"], "model_states": mc["distinct"],
             "schedules_total": len(scheds), "schedules_model_says_lost": len(lost),
@@ -98,12 +98,12 @@ def run(tier, seed):
     traces = []
     for i, (kind, workers, tasks, runs) in enumerate(plans):
         tr = os.path.join(wd, f"conc_{i}_{kind}.ndjson")
-        vp.run([os.path.join(bd, "eng_conc"), "--kind", kind, "--workers", str(workers), "--tasks", str(tasks),
+        vp.run_subject([os.path.join(bd, "eng_conc"), "--kind", kind, "--workers", str(workers), "--tasks", str(tasks),
                 "--runs", str(runs), "--seed", str(seed * 100 + i), "--out", tr], timeout=3000)
         traces.append((tr, kind, f"{kind} workers={workers} tasks={tasks}"))
     if not quick:
         tr = os.path.join(wd, "conc_fan1100.ndjson")
-        vp.run([os.path.join(bd, "eng_conc"), "--kind", "fanin", "--fan", "1100", "--workers", "16",
+        vp.run_subject([os.path.join(bd, "eng_conc"), "--kind", "fanin", "--fan", "1100", "--workers", "16",
                 "--tasks", "64", "--runs", "2", "--phases", "1", "--seed", str(seed), "--out", tr], timeout=3000)
         traces.append((tr, "fanin", "fanin 1100 workers=16"))
 
@@ -182,7 +182,7 @@ def selftest(seed):
     ok1 = "IterSeesCompleted" in mc["invariant_violated"]
     print(f"selftest {PID}: model of the drain-before-lock upgrade violates IterSeesCompleted: {ok1}")
     tr = os.path.join(wd, "c.ndjson")
-    vp.run([os.path.join(bd, "eng_conc"), "--kind", "normal", "--runs", "2", "--out", tr], timeout=300)
+    vp.run_subject([os.path.join(bd, "eng_conc"), "--kind", "normal", "--runs", "2", "--out", tr], timeout=300)
     ev = vp.read_ndjson(tr)
     # duplicate an enter event: must be reported as an overlap
     t2 = os.path.join(wd, "c2.ndjson")
